@@ -33,7 +33,9 @@ ENGINE = "E2-netsim"
 TECHNIQUE = "runtime monitoring: relational oracle, whole delivery vs split delivery of the same stream on the real HTTPChannel"
 RULE = ("request streams from the refhttp grammar (valid pipelines with Content-Length/chunked bodies, Expect: 100-continue, "
         "obs-fold, extra blank lines; hostile framing knobs; byte-level mutations; truncations) plus header blocks sized "
-        "around totalHeadersSize/maxHeaders/MAX_LENGTH and chunk-size lines of 1021..1026 bytes (cuts at every offset around their CRLF); each stream is delivered whole and then under every 1-cut split "
+        "around totalHeadersSize/maxHeaders/MAX_LENGTH and chunk-size lines of 1021..1026 bytes (cuts at every offset around their CRLF), and pipelines of 2-3 asynchronously "
+        "answered requests whose header sections are each just under the limits (cuts at/around the request boundaries, each answer "
+        "given before the next piece); each stream is delivered whole and then under every 1-cut split "
         "(streams <= 300 bytes), all or sampled 2-cut splits, byte-at-a-time and random k-splits, with deferred answers "
         "finished at random schedule points.  A case is distinct by (configuration, stream, split); non-trivial = the "
         "whole-delivery run handed at least one request to the application or produced output.")
@@ -43,7 +45,8 @@ ASSUMPTIONS = ["trusted base: netsim.SimTransport models a TCP transport (stops 
 SHARDS = {"quick": 4, "thorough": 16}
 FLOORS = {"split_runs_compared": 2000, "requests_compared": 2000, "streams_with_400": 20, "streams_with_deferred_answer": 20,
           "streams_with_100_continue": 5, "limit_streams": 10, "limit_streams_chunkline": 3,
-          "streams_with_application_exception": 20, "streams_with_application_close": 20, "split_runs_with_transport_pause": 2000}
+          "streams_with_application_exception": 20, "streams_with_application_close": 20, "split_runs_with_transport_pause": 2000,
+          "pipelines_with_near_limit_headers_async": 4}
 READY = True
 
 
@@ -224,6 +227,8 @@ def plan_for(rec, index):
     npieces = h[1] % 4
     pieces = [bytes([65 + (h[2] + i) % 26]) * (1 + (h[3] + 7 * i) % 40) for i in range(npieces)]
     quirk = {0: "raise-exc", 1: "raise-base", 2: "lose-before-finish", 3: "lose-before-finish"}.get(h[6] % 24)
+    if any(k == b"X-Defer" for k, _ in rec["headers"]):  # the stream asks for an asynchronously finished, plain answer
+        return {"code": code, "pieces": pieces, "use_cl": h[4] % 3 == 0, "defer": True, "index": index, "quirk": None}
     return {"code": code, "pieces": pieces, "use_cl": h[4] % 3 == 0, "defer": h[5] % 4 == 0, "index": index, "quirk": quirk}
 
 
@@ -327,7 +332,33 @@ def compare(ctx, config, stream, whole, pieces, finish_points, how, nontrivial=T
     return False
 
 
-LIMIT_KINDS = ["total", "count", "line", "reqline", "chunkline"]
+LIMIT_KINDS = ["total", "count", "line", "reqline", "chunkline", "asyncpipe"]
+
+
+def asyncpipe_stream(rng):
+    """Two or three pipelined requests, each answered asynchronously (X-Defer), whose header sections are each just
+    under a per-request limit (9-15 KiB of headers, or 260-490 header lines) while two of them together exceed it.
+    -> (stream, description, cut offsets at and around the request boundaries)"""
+    n = rng.choice([2, 2, 3])
+    by_count = rng.random() < 0.5
+    stream = b""
+    marks = []
+    sizes = []
+    for k in range(n):
+        lines = [b"GET /a%d HTTP/1.1" % k, b"Host: h", b"X-Defer: 1"]
+        if by_count:
+            c = rng.choice([260, 300, 400, 480, 490])
+            lines += [b"X-%d: v" % i for i in range(c - 2)]
+            sizes.append(c)
+        else:
+            total = rng.choice([9000, 12000, 15000, 16200])
+            for i in range(rng.randint(1, 3)):
+                lines.append(b"X-P%d: " % i + b"p" * (total // 3))
+            sizes.append(total)
+        stream += b"\r\n".join(lines) + b"\r\n\r\n"
+        if k < n - 1:
+            marks += [len(stream) - 2, len(stream) - 1, len(stream), len(stream) + 1, len(stream) + 20]
+    return stream, "asyncpipe-%s-%s" % ("count" if by_count else "size", "-".join(map(str, sizes))), marks
 
 
 def chunkline_stream(rng):
@@ -368,6 +399,8 @@ def limit_stream(rng, kind=None):
     kind = kind or rng.choice(LIMIT_KINDS)
     if kind == "chunkline":
         return chunkline_stream(rng)
+    if kind == "asyncpipe":
+        return asyncpipe_stream(rng)
     tail = b"GET /after HTTP/1.1\r\nHost: h\r\n\r\n" if rng.random() < 0.7 else b""
     rl = b"GET /big HTTP/1.1"
     stream, d = _limit_stream(rng, kind, rl, tail)
@@ -434,7 +467,7 @@ def split_plans(ctx, rng, stream, extra_marks=()):
                 yield [stream[:a], stream[a:b], stream[b:]], "2cut-mark"
 
 
-def check_stream(ctx, rng, config, stream, desc, extra_marks=(), sync_close=False):
+def check_stream(ctx, rng, config, stream, desc, extra_marks=(), sync_close=False, finish_between=False):
     whole = run_delivery(config, [stream], (), sync_close)
     ctx.evaluated()
     if whole["stuck"]:
@@ -462,6 +495,8 @@ def check_stream(ctx, rng, config, stream, desc, extra_marks=(), sync_close=Fals
         fps = ()
         if whole["n_deferred"] and rng.random() < 0.7:
             fps = set(rng.sample(range(len(pieces)), min(len(pieces), rng.randint(1, 3))))
+        if finish_between and how.endswith("mark"):
+            fps = set(range(len(pieces) - 1))  # every asynchronous answer is given before the next piece arrives
         ctx.count("splits_" + how.split("-")[0])
         pps = None
         if len(pieces) >= 2 and rng.random() < 0.25:  # the transport stops reading after piece p and resumes after piece q (or at the end)
@@ -502,7 +537,10 @@ def run(ctx):
         sync_close = ctx.case_rng(i, "sync-close").random() < 0.3
         if sync_close:
             ctx.count("streams_on_sync_close_transport")
-        check_stream(ctx, rng, config, stream, desc, marks, sync_close)
+        asyncpipe = bool(desc) and desc[0].startswith("limit:asyncpipe")
+        if asyncpipe:
+            ctx.count("pipelines_with_near_limit_headers_async")
+        check_stream(ctx, rng, config, stream, desc, marks, sync_close, asyncpipe)
 
 
 def _unb(x):
